@@ -16,6 +16,14 @@ CLAIMS = {
   text="Corollary layer of the C02 development (value printing and exit status coincide; the native model with left-to-right argument evaluation IS the reference semantics, proved by mutual induction on fuel) plus a model-independent oracle: both REAL backends are run on the witness of every recorded finding, on generated CoreS programs in prefix/infix/mixed spelling and on the repository's own example and test programs (CoreX: structs, enums, unions, tuples, arrays, strings, imports); stdout bytes and exit status must be identical.",
   note="Theorems cover CoreS; CoreX and imports by correspondence only. Programs that use the environment/FFI or print floats are outside the property and skipped. Open findings: native argument order, three native C-compile failures, five repo programs (STRUCT_GET on the VM, a failing string assertion, C-implemented module functions).",
   technique="Coq corollaries of the engine simulation + direct differential of the two real backends", design="DESIGN.md 5/C01"),
+ 'C03': dict(
+  text="InterpSem.v models the tree-walking evaluator as it is (one symbol stack shared by all active calls, symbols popped at block / loop / call exit, assertion failures counted not aborting); interp_simulates_ref / interp_correct: along the program's shadow blocks the evaluator prints the reference's text and records the reference's truth value for every assertion, under names_apart (no parameter, let or for variable spelled like a top-level constant -- exactly what dynamic scoping still forces -- and no escapes in strings); with Agree (native model = reference) this gives pass_at_compile_time_passes_at_run_time and correct_program_never_refused. Without names_apart the statement is refuted (the specification's own section 8.1 program). Tie: the extracted model must predict real `nanoc --verbose` byte for byte (text between 'Testing f...' and PASSED/FAILED, failure counts, exit status) also where the evaluator deviates; model-independent oracle: compile-time result vs the native binary executing the same calls vs the reference.",
+  note="CoreS + strings; arrays/structs and imported-module shadow blocks are not modelled. Open findings: dynamic scoping across calls (3 witnesses), escapes printed verbatim at compile time, value of a void call.",
+  technique="Coq fuel-simulation proof (evaluator model vs reference) + extracted-model vs nanoc --verbose correspondence + compile-time/native/reference differential", design="DESIGN.md 5/C03"),
+ 'C06': dict(
+  text="ShadowGate.v: run_shadow_tests as a fold over an ARBITRARY list of shadow tests and assertions (per-test failure accounting, skip rule for extern-using tests, all_passed conjunction) and the driver phases; gate_iff: nanoc produces a binary iff every executed assertion is true, for any position, count and nesting of the failing assertion; exit status, the FAILED line naming the test, binary only after passing, missing shadow reported; gate_iff_ref ties the truth values to the reference semantics under names_apart. Real nanoc (fresh output path per run) is compared with the model and with reference truth values on programs with the failing assertion planted first / last / inside loops / after passing ones / in the last of many blocks.",
+  note="Phases 1-4 and 6-7 of the driver and the extern-skip scan are inputs of the model. Open finding: with dynamic scoping a false assertion can pass at compile time (witness keyed).",
+  technique="Coq proof over a fold model of the shadow gate + real-nanoc correspondence with reference-oracle truth values", design="DESIGN.md 5/C06"),
  'C04': dict(
   text="wt_sound: a program accepted by the reference type checker wt (Lang/Types.v: operand/argument types, arity, block scoping, immutability, return on every path, bool conditions) never reaches Stuck in the reference semantics, for every fuel (proved with an environment-typing invariant incl. calls and recursion); with Agree and the VM simulation this transfers to both engine models (native model never Stuck/cc-refused; VmCompile resolves every name).  The statement about the REAL acceptance predicate is correspondence: two-sided agreement wt <=> typechecker.c on generated programs and on all catalogue mutants, and every program the real checker accepts is pushed through both real backends and must not end in an internal failure class.",
   note="Theorems are about Types.wt; typechecker.c (6.2k lines) is tied by correspondence and currently diverges on 28 recorded places (open findings keyed by minimal program: operand types printed but not enforced, scopes never popped, no return-path analysis, ...). Codegen theorem is _partial (names resolve; no encoding/verifier).",
